@@ -43,7 +43,11 @@ ones are independent (`indepFun_affine_of_uncorrelated`), hence the conditioning
    `reluLb_le`: `h·exp(phiLn ω h) ≤ h/(1+h)`), pointwise minorant `C17_pointwise_relu`, identification of
    `k_func` (`relu_kfunc_integral`) and of `_lower_bound_integrals` (`relu_het_integral`, both branches;
    `relu_trunc_moments`: the truncated object built from `p_h · exp(phiLn)` exists and its moments are
-   the expectations), `ω* = ω† = E_r[max(h,0)] ≥ 0` (`reluOmega_nonneg`), value = integral
+   the expectations, up to the fourth order), `ω† = E_r[max(h,0)]/P_r(h ≥ 0) ≥ 0` (`reluOmega_eq`,
+   `reluOmega_nonneg`), `ω* ≥ 0` for the result of the fixed-point loop of `_get_omega_star` as a LOOP
+   INVARIANT (`reluOmegaStar_nonneg`: `_update_omega_star = quartic/where(cubic≠0,cubic,1)` is a quotient of
+   integrals of non-negative functions for every `ω ≥ 0`, `relu_lbi4_of_project`, `relu_update_nonneg`; no
+   statement about the number of iterations or convergence), value = integral at `(ω*, ω†)`
    (`C17_relu_value_eq_integral`) and the bound `C17_lower_bound_relu_coded` (all shapes, integrability of
    the right-hand side included), `C17_lower_bound_relu`, `C17_lower_bound_relu_model` (`Decoupled c`).
 
@@ -1084,7 +1088,8 @@ theorem relu_trunc_moments (Wi : Vec (Dx + 1) ℝ) (hw : toV (wTail Wi) ≠ 0) (
     ∃ t, truncPos be ((hDensity be p Wi).hadamard be (phiFactor ω) true) false = some t ∧ ∀ r,
       t.integrateX r 0 = (∫ x, reluLb (ω r) (hW Wi x) * dens p r x) ∧
       t.integrateXPow2 r 0 = (∫ x, reluLb (ω r) (hW Wi x) * hW Wi x * dens p r x) ∧
-      t.integrateXPowK 3 r 0 = ∫ x, reluLb (ω r) (hW Wi x) * hW Wi x ^ 2 * dens p r x := by
+      t.integrateXPowK 3 r 0 = (∫ x, reluLb (ω r) (hW Wi x) * hW Wi x ^ 2 * dens p r x) ∧
+      t.integrateXPowK 4 r 0 = ∫ x, reluLb (ω r) (hW Wi x) * hW Wi x ^ 3 * dens p r x := by
   set phiH := (hDensity be p Wi).hadamard be (phiFactor ω) true with hphiH
   have hm : phiH.Inv := C04.C04_hadamard hbe _ _ true (hDensity_inv hbe hp Wi hw) (factorPSD_linear _ _)
   have hcls : phiH.cls.isPdf = false := hadamard_linear_cls _ _ _
@@ -1114,13 +1119,16 @@ theorem relu_trunc_moments (Wi : Vec (Dx + 1) ℝ) (hw : toV (wTail Wi) ≠ 0) (
     refine integral_congr_ae (ae_of_all _ fun h => ?_)
     simp only [indicator_Ici_eq, hu_eq]
     ring
-  refine ⟨t, htp, fun r => ⟨?_, ?_, ?_⟩⟩
+  refine ⟨t, htp, fun r => ⟨?_, ?_, ?_, ?_⟩⟩
   · rw [C20.C20_x hok hcm r 0, key r (fun h => h) measurable_id]
     rfl
   · rw [C20.C20_x2 hok hcm r 0, key r (fun h => h ^ 2) (measurable_id.pow_const 2)]
     refine integral_congr_ae (ae_of_all _ fun x => ?_)
     simp only [reluLb]; ring
   · rw [C20.C20_xk hok hcm r 3 0, key r (fun h => h ^ 3) (measurable_id.pow_const 3)]
+    refine integral_congr_ae (ae_of_all _ fun x => ?_)
+    simp only [reluLb]; ring
+  · rw [C20.C20_xk hok hcm r 4 0, key r (fun h => h ^ 4) (measurable_id.pow_const 4)]
     refine integral_congr_ae (ae_of_all _ fun x => ?_)
     simp only [reluLb]; ring
 
@@ -1176,7 +1184,7 @@ theorem relu_het_of_project (c : HeteroB Dy Dx Da Dk ℝ) (y : Arr R (Vec Dy ℝ
     (reluLowerBoundIntegrals be c p y Wi ai ω false).1 r
       = ∫ x, reluLb (ω r) (hW Wi x) * gOf c y ai r x ^ 2 * dens p r x := by
   obtain ⟨t, htp, hmom⟩ := relu_trunc_moments hbe hp Wi hw ω
-  obtain ⟨e1, e2, e3⟩ := hmom r
+  obtain ⟨e1, e2, e3, -⟩ := hmom r
   have i0 := integrable_reluLb_pow hp Wi r (ω r) hω 0
   have i1 := integrable_reluLb_pow hp Wi r (ω r) hω 1
   have i2 := integrable_reluLb_pow hp Wi r (ω r) hω 2
@@ -1191,6 +1199,105 @@ theorem relu_het_of_project (c : HeteroB Dy Dx Da Dk ℝ) (y : Arr R (Vec Dy ℝ
   cases sig with
   | none => simp only [sigOf, tab_apply, two_real, Bool.false_eq_true, if_false, mul_zero, add_zero]
   | some s => simp only [sigOf, tab_apply, two_real, Bool.false_eq_true, if_false]
+
+theorem reluLb_mul_self_nonneg (ω h : ℝ) : 0 ≤ reluLb ω h * h := by
+  unfold reluLb
+  rcases lt_or_ge h 0 with hh | hh
+  · rw [heavisideLink_of_neg hh]; simp
+  · rw [heavisideLink_of_nonneg hh, one_mul]; exact mul_nonneg (mul_nonneg hh (exp_pos _).le) hh
+
+include hbe hp in
+/-- **rectified-linear link, one unit, `compute_fourth_order=True`**: the third- and the fourth-order
+integrals `_update_omega_star` divides are `∫ reluLb ω h · g² p_r` and `∫ reluLb ω h · h · g² p_r`, for every
+`ω ≥ 0` -/
+theorem relu_lbi4_of_project (c : HeteroB Dy Dx Da Dk ℝ) (y : Arr R (Vec Dy ℝ)) (Wi : Vec (Dx + 1) ℝ)
+    (ai : Vec Dy ℝ) (hw : toV (wTail Wi) ≠ 0) (r : Fin R) (ω : Arr R ℝ) (hω : 0 ≤ ω r)
+    (c1 c0 : Arr R ℝ) (sig : Option (Arr R ℝ))
+    (hproj : projectGH be c p y Wi ai = (hDensity be p Wi, c1, c0, sig))
+    (hreg : RegressOK p c y Wi ai r (c1 r) (c0 r) (sigOf sig r)) :
+    ∃ cu qu : Arr R ℝ, reluLowerBoundIntegrals be c p y Wi ai ω true = (cu, some qu) ∧
+      cu r = (∫ x, reluLb (ω r) (hW Wi x) * gOf c y ai r x ^ 2 * dens p r x) ∧
+      qu r = ∫ x, reluLb (ω r) (hW Wi x) * hW Wi x * gOf c y ai r x ^ 2 * dens p r x := by
+  obtain ⟨t, htp, hmom⟩ := relu_trunc_moments hbe hp Wi hw ω
+  obtain ⟨e1, e2, e3, e4⟩ := hmom r
+  have i0 := integrable_reluLb_pow hp Wi r (ω r) hω 0
+  have i1 := integrable_reluLb_pow hp Wi r (ω r) hω 1
+  have i2 := integrable_reluLb_pow hp Wi r (ω r) hω 2
+  have i3 := integrable_reluLb_pow hp Wi r (ω r) hω 3
+  simp only [pow_zero, mul_one, pow_one] at i0 i1
+  obtain ⟨-, eg⟩ := regress_integral hp hreg (reluLb (ω r)) (measurable_reluLb _) i0 i1 i2
+  have j1 : Integrable fun x => (reluLb (ω r) (hW Wi x) * hW Wi x) * hW Wi x * dens p r x :=
+    i2.congr (ae_of_all _ fun x => by ring)
+  have j2 : Integrable fun x => (reluLb (ω r) (hW Wi x) * hW Wi x) * hW Wi x ^ 2 * dens p r x :=
+    i3.congr (ae_of_all _ fun x => by ring)
+  obtain ⟨-, eg4⟩ := regress_integral hp hreg (fun h => reluLb (ω r) h * h)
+    ((measurable_reluLb _).mul measurable_id) i1 j1 j2
+  have e3' : t.integrateXPowK 3 r 0 = ∫ x, (reluLb (ω r) (hW Wi x) * hW Wi x) * hW Wi x * dens p r x :=
+    e3.trans (integral_congr_ae (ae_of_all _ fun x => by ring))
+  have e4' : t.integrateXPowK 4 r 0 = ∫ x, (reluLb (ω r) (hW Wi x) * hW Wi x) * hW Wi x ^ 2 * dens p r x :=
+    e4.trans (integral_congr_ae (ae_of_all _ fun x => by ring))
+  have htp' : truncPos be ((hDensity be p Wi).hadamard be
+      (.linear (tab2 fun r _ => (tab fun r => -1 / (1 + ω r) : Arr R ℝ) r)
+        (tab fun r => -(Transc.log (1 + ω r)) + ω r / (1 + ω r))) true) false = some t := htp
+  simp only [reluLowerBoundIntegrals, hproj, htp', if_true]
+  refine ⟨_, _, rfl, ?_, ?_⟩
+  · rw [eg, integral_quad_expand Wi r (reluLb (ω r)) _ _ _ i0 i1 i2, ← e1, ← e2, ← e3]
+    cases sig with
+    | none => simp only [sigOf, tab_apply, two_real, mul_zero, add_zero]
+    | some s => simp only [sigOf, tab_apply, two_real]
+  · rw [eg4, integral_quad_expand Wi r (fun h => reluLb (ω r) h * h) _ _ _ i1 j1 j2, ← e2, ← e3', ← e4']
+    cases sig with
+    | none => simp only [sigOf, tab_apply, two_real, mul_zero, add_zero]
+    | some s => simp only [sigOf, tab_apply, two_real]
+
+include hbe hp in
+/-- **one step of the fixed-point iteration (rectified-linear class), one unit**:
+`quartic / where(cubic != 0, cubic, 1)` is non-negative for every `ω ≥ 0` (both integrals are integrals of
+non-negative functions) -/
+theorem relu_update_nonneg_of_project (c : HeteroB Dy Dx Da Dk ℝ) (y : Arr R (Vec Dy ℝ)) (Wi : Vec (Dx + 1) ℝ)
+    (ai : Vec Dy ℝ) (hw : toV (wTail Wi) ≠ 0) (r : Fin R) (ω : Arr R ℝ) (hω : 0 ≤ ω r)
+    (c1 c0 : Arr R ℝ) (sig : Option (Arr R ℝ))
+    (hproj : projectGH be c p y Wi ai = (hDensity be p Wi, c1, c0, sig))
+    (hreg : RegressOK p c y Wi ai r (c1 r) (c0 r) (sigOf sig r)) :
+    0 ≤ reluUpdateOmegaStar reluLowerBoundIntegrals be c p y Wi ai ω r := by
+  obtain ⟨cu, qu, hl, hc, hq⟩ := relu_lbi4_of_project hbe hp c y Wi ai hw r ω hω c1 c0 sig hproj hreg
+  have h3 : 0 ≤ cu r := by
+    rw [hc]
+    exact integral_nonneg fun x => mul_nonneg (mul_nonneg (reluLb_nonneg _ _) (sq_nonneg _)) (dens_nonneg p r x)
+  have h4 : 0 ≤ qu r := by
+    rw [hq]
+    exact integral_nonneg fun x =>
+      mul_nonneg (mul_nonneg (reluLb_mul_self_nonneg _ _) (sq_nonneg _)) (dens_nonneg p r x)
+  simp only [reluUpdateOmegaStar, hl, tab_apply, C20.ne0_real, decide_eq_true_eq]
+  split_ifs
+  · exact div_nonneg h4 h3
+  · exact div_nonneg h4 zero_le_one
+
+include hbe hp in
+/-- **one step of the fixed-point iteration (rectified-linear class)**, unit `k`, both branches of
+`project_GH`: `ω ≥ 0` is preserved -/
+theorem relu_update_nonneg (c : HeteroB Dy Dx Da Dk ℝ) (y : Arr R (Vec Dy ℝ)) (k : Fin Dk)
+    (hw : WeightsNonzero c) (hreg : UnitsRegular p c) (r : Fin R) (ω : Arr R ℝ) (hω : 0 ≤ ω r) :
+    0 ≤ reluUpdateOmegaStar reluLowerBoundIntegrals be c p y (c.W k) (aCol c k) ω r := by
+  by_cases hD : Dx = 1
+  · subst hD
+    have hw0 : wTail (c.W k) 0 ≠ 0 := by
+      intro h0
+      apply hw.tail_ne k
+      funext i
+      have : i = 0 := Subsingleton.elim _ _
+      subst this
+      simpa using h0
+    refine relu_update_nonneg_of_project hbe hp c y (c.W k) (aCol c k) (hw.tail_ne k) r ω hω _ _ none
+      (projectGH_one c p y (c.W k) (aCol c k)) ?_
+    have := regressOK_one c p y (c.W k) (aCol c k) hw0 r
+    simpa [sigOf] using this
+  · obtain ⟨q, hq⟩ := jointGH_isSome (be := be) c p y (c.W k) (aCol c k)
+    have hproj := projectGH_ne hD c p y (c.W k) (aCol c k) hq
+    rw [marginal_eq_hDensity c p y (c.W k) (aCol c k) hq] at hproj
+    refine relu_update_nonneg_of_project hbe hp c y (c.W k) (aCol c k) (hw.tail_ne k) r ω hω _ _ _ hproj ?_
+    have := regressOK_ne hbe hp c y (c.W k) (aCol c k) (hreg hD k) hq r
+    simpa [sigOf] using this
 
 include hbe hp in
 /-- **rectified-linear link, heteroscedastic term of unit `k`** (both branches of `project_GH`), for
@@ -1222,45 +1329,75 @@ theorem relu_het_integral (c : HeteroB Dy Dx Da Dk ℝ) (y : Arr R (Vec Dy ℝ))
     have := regressOK_ne hbe hp c y (c.W k) (aCol c k) (hreg hD k) hq r
     simpa [sigOf] using this
 
-/-- the variational parameter the rectified-linear class uses for unit `k` of component `r`:
-`ω†_k = E_r[max(h_k, 0)]` (and `ω*_k = ω†_k` as coded) -/
+/-- the variational parameter the rectified-linear class uses in `get_lb_log_det` for unit `k` of
+component `r`: `ω†_k = E_r[max(h_k, 0)] / P_r(h_k ≥ 0)` (also the start value of the iteration for `ω*_k`) -/
 noncomputable def reluOmega (be : Backend ℝ) (c : HeteroB Dy Dx Da Dk ℝ) (p : PdfV R Dx ℝ) (r : Fin R)
     (k : Fin Dk) : ℝ := reluGetOmegaDagger be p (c.W k) r
 
 include hbe hp in
+/-- `ω† = E_r[max(h,0)] / P_r(h ≥ 0)`, the mean of `h` given `h ≥ 0` -/
+theorem reluOmega_eq (c : HeteroB Dy Dx Da Dk ℝ) (hw : WeightsNonzero c) (r : Fin R) (k : Fin Dk) :
+    reluOmega be c p r k =
+      (∫ x, reluLink (hW (c.W k) x) * dens p r x) / ∫ x, heavisideLink (hW (c.W k) x) * dens p r x := by
+  simp only [reluOmega, reluGetOmegaDagger, tab_apply]
+  rw [reluUnit_eq hbe hp (c.W k) (hw.tail_ne k) r, heavisideUnit_eq hbe hp (c.W k) (hw.tail_ne k) r]
+  -- the guard `where(Z > 0, E / Z, 0)` is the plain quotient over the reals (`E / 0 = 0`, and `Z ≥ 0`)
+  have hZ : 0 ≤ ∫ x, heavisideLink (hW (c.W k) x) * dens p r x :=
+    integral_nonneg fun x => mul_nonneg (heavisideLink_nonneg _) (Real.exp_pos _).le
+  change (if Transc.lt 0 (∫ x, heavisideLink (hW (c.W k) x) * dens p r x) = true then _ else 0) = _
+  rw [transc_lt]
+  by_cases h : 0 < ∫ x, heavisideLink (hW (c.W k) x) * dens p r x
+  · simp only [h, decide_true, if_true]; rfl
+  · have h0 : (∫ x, heavisideLink (hW (c.W k) x) * dens p r x) = 0 := le_antisymm (not_lt.mp h) hZ
+    rw [h0]; simp
+
+include hbe hp in
 theorem reluOmega_nonneg (c : HeteroB Dy Dx Da Dk ℝ) (hw : WeightsNonzero c) (r : Fin R) (k : Fin Dk) :
     0 ≤ reluOmega be c p r k := by
-  have : reluOmega be c p r k = ∫ x, reluLink (toV (wTail (c.W k)) ⬝ᵥ x + wHead (c.W k)) * wgt p r x :=
-    reluUnit_eq hbe hp (c.W k) (hw.tail_ne k) r
-  rw [this]
-  exact integral_nonneg fun x => mul_nonneg (reluLink_nonneg _) (Real.exp_pos _).le
+  rw [reluOmega_eq hbe hp c hw r k]
+  exact div_nonneg
+    (integral_nonneg fun x => mul_nonneg (reluLink_nonneg _) (Real.exp_pos _).le)
+    (integral_nonneg fun x => mul_nonneg (heavisideLink_nonneg _) (Real.exp_pos _).le)
+
+include hbe hp in
+/-- **`ω* ≥ 0` for the rectified-linear class** (loop invariant: `ω† ≥ 0`, and `_update_omega_star` maps
+`ω ≥ 0` to a quotient of integrals of non-negative functions; no statement about the number of iterations
+or convergence is needed) -/
+theorem reluOmegaStar_nonneg (c : HeteroB Dy Dx Da Dk ℝ) (y : Arr R (Vec Dy ℝ)) (hw : WeightsNonzero c)
+    (hreg : UnitsRegular p c) (r : Fin R) (k : Fin Dk) :
+    0 ≤ omegaStar reluOps be c p y r k :=
+  getOmegaStar_invariant reluOps be c p y (c.W k) (aCol c k) (fun ω => 0 ≤ ω r)
+    (reluOmega_nonneg hbe hp c hw r k)
+    (fun ω hω => relu_update_nonneg hbe hp c y k hw hreg r ω hω)
 
 theorem integrateLogConditionalY_relu_eq (c : HeteroB Dy Dx Da Dk ℝ) (y : Arr R (Vec Dy ℝ)) (r : Fin R) :
     c.integrateLogConditionalY reluOps be p y r =
       -(1 / 2) * (((p.toMeasure.intView be).2.integrateQuadInner (homoA c y) (homoB c y)) r
         - (∑ k, (reluLowerBoundIntegrals be c p y (c.W k) (aCol c k)
-            (reluGetOmegaDagger be p (c.W k)) false).1 r)
+            (getOmegaStar reluOps be c p y (c.W k) (aCol c k)) false).1 r)
         + (c.lnDetSigma 0 + ∑ k, reluKFunc be p (c.W k) (reluGetOmegaDagger be p (c.W k)) r)
         + (Dy : ℝ) * log (2 * π)) := by
   simp only [HeteroB.integrateLogConditionalY, getLbQuadraticTerm_eq, tab_apply, half_real, ofNat_real,
-    log2pi_real, reluOps, baseGetLbHeteroscedasticTermI, baseGetOmegaStar_eq, baseGetLbLogDet, vsum_real,
+    log2pi_real, reluOps, baseGetLbHeteroscedasticTermI, getOmegaStar, baseGetLbLogDet, vsum_real,
     aCol]
   ring
 
 include hbe hp
 
 /-- **identification of the returned value (rectified-linear class, all shapes `Dy ≤ Da`)**:
-`integrate_log_conditional_y(p_x, y)` is the expectation under `p_r` of `reluLbIntegrand`
-at `ω* = ω† = E_r[max(h, 0)]` -/
+`integrate_log_conditional_y(p_x, y)` is the expectation under `p_r` of `reluLbIntegrand` at `ω*` (result
+of `_get_omega_star`, heteroscedastic term) and `ω† = E_r[max(h, 0)] / P_r(h ≥ 0)` (log-determinant) -/
 theorem C17_relu_value_eq_integral (c : HeteroB Dy Dx Da Dk ℝ) (y : Arr R (Vec Dy ℝ))
     (hw : WeightsNonzero c) (hreg : UnitsRegular p c) (r : Fin R) :
-    Integrable (fun x => reluLbIntegrand c (toV (y r)) (reluOmega be c p r) (reluOmega be c p r) x
+    Integrable (fun x => reluLbIntegrand c (toV (y r)) (omegaStar reluOps be c p y r) (reluOmega be c p r) x
       * dens p r x) ∧
     c.integrateLogConditionalY reluOps be p y r =
-      ∫ x, reluLbIntegrand c (toV (y r)) (reluOmega be c p r) (reluOmega be c p r) x * dens p r x := by
-  have hω : ∀ k, 0 ≤ (reluGetOmegaDagger be p (c.W k)) r := fun k => reluOmega_nonneg hbe hp c hw r k
+      ∫ x, reluLbIntegrand c (toV (y r)) (omegaStar reluOps be c p y r) (reluOmega be c p r) x
+        * dens p r x := by
+  have hω : ∀ k, 0 ≤ (getOmegaStar reluOps be c p y (c.W k) (aCol c k)) r :=
+    fun k => reluOmegaStar_nonneg hbe hp c y hw hreg r k
   have h := integral_lnForm c (toV (y r)) (dens p r)
-    (fun x k => reluLb (reluOmega be c p r k) (hW (c.W k) x))
+    (fun x k => reluLb (omegaStar reluOps be c p y r k) (hW (c.W k) x))
     (fun x k => reluK (reluOmega be c p r k) (hW (c.W k) x))
     (dens_integrable' hp r) (dens_integral_one hp r) (homo_integral hbe hp.inv c y r).1
     (fun k => (relu_het_integral hbe hp c y k hw hreg r _ (hω k)).1)
@@ -1285,6 +1422,7 @@ theorem C17_lower_bound_relu_coded (c : HeteroB Dy Dx Da Dk ℝ) (y : Arr R (Vec
       ∫ x, normalLn (toM (c.M 0) *ᵥ x + toV (c.b 0)) (precAt c (dval reluOps c x))
         (lnDetAt c (dval reluOps c x)) (toV (y r)) * dens p r x := by
   have hω : ∀ k, 0 ≤ reluOmega be c p r k := fun k => reluOmega_nonneg hbe hp c hw r k
+  have hωs : ∀ k, 0 ≤ omegaStar reluOps be c p y r k := fun k => reluOmegaStar_nonneg hbe hp c y hw hreg r k
   have hd : ∀ x k, dval reluOps c x k = reluLink (hW (c.W k) x) := dval_relu c
   have hpos : ∀ k x, (0:ℝ) < 1 + reluLink (hW (c.W k) x) := fun k x => by
     have := reluLink_nonneg (hW (c.W k) x); linarith
@@ -1294,7 +1432,7 @@ theorem C17_lower_bound_relu_coded (c : HeteroB Dy Dx Da Dk ℝ) (y : Arr R (Vec
     (dens_integral_one hp r) (homo_integral hbe hp.inv c y r).1
     (fun k => proj_sq_integrable hbe hp.inv c y k r)
     (fun x k => dval reluOps c x k / (1 + dval reluOps c x k))
-    (fun x k => reluLb (reluOmega be c p r k) (hW (c.W k) x))
+    (fun x k => reluLb (omegaStar reluOps be c p y r k) (hW (c.W k) x))
     (fun x k => log (1 + dval reluOps c x k))
     (fun x k => reluK (reluOmega be c p r k) (hW (c.W k) x))
     (fun k => by
@@ -1303,8 +1441,8 @@ theorem C17_lower_bound_relu_coded (c : HeteroB Dy Dx Da Dk ℝ) (y : Arr R (Vec
     (fun x k => by
       rw [hd, div_le_one (hpos k x)]; linarith)
     (fun x k => reluLb_nonneg _ _)
-    (fun x k => by rw [hd]; exact reluLb_le _ _ (hω k))
-    (fun k => (relu_het_integral hbe hp c y k hw hreg r _ (hω k)).1)
+    (fun x k => by rw [hd]; exact reluLb_le _ _ (hωs k))
+    (fun k => (relu_het_integral hbe hp c y k hw hreg r _ (hωs k)).1)
     (fun k => by
       simp_rw [hd]
       exact (Real.measurable_log.comp (measurable_const.add (hmr k))).aestronglyMeasurable)
@@ -1489,6 +1627,8 @@ section axioms
 #print axioms GT.Props.C17Trunc.C17_pointwise_relu
 #print axioms GT.Props.C17Trunc.relu_kfunc_integral
 #print axioms GT.Props.C17Trunc.relu_het_integral
+#print axioms GT.Props.C17Trunc.relu_update_nonneg
+#print axioms GT.Props.C17Trunc.reluOmegaStar_nonneg
 #print axioms GT.Props.C17Trunc.C17_relu_value_eq_integral
 #print axioms GT.Props.C17Trunc.C17_lower_bound_relu_coded
 #print axioms GT.Props.C17Trunc.C17_lower_bound_relu
